@@ -11,7 +11,8 @@
 From Coq Require Import List String Bool Arith ZArith.
 From Annet Require Import Base.Str Base.Tree Model.Pattern Model.Rulebook Model.Diff Model.Order Model.Patch
      Model.Blocks Model.Pipeline Model.Device Model.Acl Model.AclPipeline Spec.PipelineCase Spec.P_C01 Spec.P_C02
-     Proofs.AclPipelineProofs Proofs.AclDeviceProofs Proofs.AclPatchRel2 Proofs.AclDeviceNested Proofs.AclGuardDomain.
+     Proofs.AclPipelineProofs Proofs.AclDeviceProofs Proofs.AclPatchRel2 Proofs.AclDeviceNested Proofs.AclGuardDomain
+     Spec.P_C02Gen Proofs.AclGenStage.
 Import ListNotations.
 Open Scope string_scope.
 
@@ -783,3 +784,40 @@ Proof.
   intro H. specialize (H fr [] eq_refl eq_refl). vm_compute in H. discriminate.
 Qed.
 Print Assumptions C02_uncovered_untouched_statement_refuted.
+
+(* ------------------------------------------------------------------ the generator stage (annet.gen._old_new_per_device)
+   The ACL a patch is confined to is the union of the ACLs of the selected generators that RUN for the device
+   (Spec/P_C02Gen.v: ref_acl); a generator skipped for the device (no run_<vendor>, supports_device() false,
+   NotSupportedDevice) contributes nothing.  Proofs/AclGenStage.v. *)
+
+(* No selected generator runs: the reference ACL is empty, the pipeline produces an empty diff and NO command, the
+   device keeps its configuration - for every device configuration, every generated configuration, rulebook,
+   ordering and vendor (unbounded: induction over the configuration in acl_filter_empty). *)
+Theorem C02_no_running_generator_nothing_touched : forall v av rs ordering ps old new,
+  (forall p, In p ps -> gp_runs p = false) ->
+  ref_acl ps = [] /\
+  model_out (gen_in v av rs ps old new) ordering = C02Out [] (Some []) /\
+  (forall y, model_out (gen_in v av rs ps old new) ordering = y ->
+     match o_cmds y with Some cs => after (gen_in v av rs ps old new) cs = old | None => False end).
+Proof. exact no_running_generator_nothing_touched. Qed.
+Print Assumptions C02_no_running_generator_nothing_touched.
+
+(* non-vacuity: two selected generators with non-empty ACLs, none of which runs; a running one gives a non-empty ACL *)
+Example C02_no_running_generator_example :
+  let ps := [GPart [AItem "sysname" "sysname" false false None 0 ["g1"] []] false;
+             GPart [AItem "ntp-service" "ntp-service" false false None 0 ["g2"] []] false] in
+  (forall p, In p ps -> gp_runs p = false) /\ ps <> [] /\
+  ref_acl [GPart [AItem "sysname" "sysname" false false None 0 ["g1"] []] true] <> [].
+Proof. exact no_running_generator_example. Qed.
+
+(* A skipped generator is irrelevant wherever it stands in the selection: same reference ACL, same pipeline result. *)
+Theorem C02_skipped_generator_is_irrelevant : forall v av rs ordering a p b old new,
+  gp_runs p = false ->
+  model_out (gen_in v av rs (a ++ p :: b) old new) ordering = model_out (gen_in v av rs (a ++ b) old new) ordering.
+Proof. exact skipped_generator_is_irrelevant. Qed.
+Print Assumptions C02_skipped_generator_is_irrelevant.
+
+(* The empty ACL passes nothing of any configuration (what apply_acl(old, <empty rules>) is in _old_new_per_device). *)
+Theorem C02_empty_acl_filters_everything : forall av f, p_acl_filter av ([], []) f = [].
+Proof. intros av f. apply acl_filter_empty. Qed.
+Print Assumptions C02_empty_acl_filters_everything.
